@@ -56,7 +56,7 @@ fn key(rng: &mut Rng) -> String {
     for _ in 0..hexlen {
         s.push(*rng.pick(&['0', '1', '2', '3', '4', '5', '6', '7', '8', '9', 'a', 'b', 'c', 'd', 'e', 'f']));
     }
-    s.push_str(*rng.pick(&[".delta", ".pack", ".pack", ".delta", ".idx", ".tmp"]));
+    s.push_str(*rng.pick(&[".delta", ".pack", ".pack", ".delta", ".idx", ".tmp", ".PACK", ".Delta", ".pac_", ".p%ck", ".pack2"]));
     s
 }
 
@@ -139,7 +139,14 @@ pub fn contract_run(name: &str, seed: u64, stats: &mut BTreeMap<String, u64>) ->
                 other => return Err(cv("contract-read-range", format!("read_object({}, {}, {}) of a {}-byte item = {:?}", key_, off, len, m.len(), other.map(|d| (d.len(), crate::refstore::sha_hex(&d)[..12].to_string())).map_err(|e| e.to_string())))),
             }
         } else if k < 92 {
-            let ext = *rng.pick(&["", ".pack", ".delta", ".idx", ".none"]);
+            // fixed suffixes, and the tail of an existing key (any length) as suffix
+            let tail: String = {
+                let k0 = rng.pick(&keys).clone();
+                let n = rng.range(1, k0.len().min(7));
+                k0[k0.len() - n..].to_string()
+            };
+            let pool = ["", ".pack", ".delta", ".idx", ".none", ".PACK", "_", "ck", tail.as_str()];
+            let ext = *rng.pick(&pool);
             bump(stats, "contract.list");
             let r = guard(|| a.list_objects(ext)).map_err(|c| cv("contract-abort", format!("list_objects({:?}) does not return: {}", ext, c.text())))?;
             let mut want: Vec<String> = model.keys().filter(|k| k.ends_with(ext)).map(|k| k[..k.len() - ext.len()].to_string()).collect();
